@@ -7,15 +7,28 @@
 // go:   `go f(x)`     -> vsched.Go(func(){ f(x) })
 // time: time.AfterFunc/Now/Since/Sleep/Until and *time.Timer -> verif/shim/vtime
 // syncb: import "sync" -> "verif/shim/vsyncb" (same local name): real sync except a
-//       WaitGroup without synctest bubble association (Go 1.25.0 reports a spurious
-//       "WaitGroup.Add called from multiple synctest bubbles" on recycled addresses);
-//       for Engine A harnesses that run many bubbles. Not combinable with "sync".
+//
+//	WaitGroup without synctest bubble association (Go 1.25.0 reports a spurious
+//	"WaitGroup.Add called from multiple synctest bubbles" on recycled addresses);
+//	for Engine A harnesses that run many bubbles. "sync,syncb" together ->
+//	"verif/shim/vsyncsb": vsync's cooperative Mutex/RWMutex/Once plus a WaitGroup
+//	that is cooperative under Engine B and bubble-safe otherwise.
+//
 // os:   import "os"   -> "verif/shim/vfs" (same local name): in-memory file system
-//       that logs every operation and supports crash-at-operation-k and torn
-//       writes; paths outside a mounted prefix go to the real os package
+//
+//	that logs every operation and supports crash-at-operation-k and torn
+//	writes; paths outside a mounted prefix go to the real os package
+//
 // xchg: radius.Exchange(...) of layeh.com/radius -> verif/shim/vradius.Exchange
-//       (scripted in-memory RADIUS server; falls back to the real exchange when
-//       no script is installed)
+//
+//	(scripted in-memory RADIUS server; falls back to the real exchange when
+//	no script is installed)
+//
+// bpfmap: calls x.f.Put(k, v) / x.f.Lookup(k, v) / x.f.Delete(k) on a FIELD (selector of a selector, e.g.
+//
+//	m.bindings.Put) -> vbpf.Put(x.f, k, v) ...: the same call preceded by a scheduling point, so that
+//	read-modify-write sequences on kernel maps are interleaved by Engine B. A receiver whose method has
+//	another signature does not compile (the wrappers are generic over the exact method signature).
 //
 // Nothing else is changed. A requested rewrite that matches nothing is an error
 // (exit 2): an instrumentation failure must never look like a verdict.
@@ -94,7 +107,19 @@ func rewriteFile(src, dst string, want map[string]bool, hits map[string]int) (bo
 		p, _ := strconv.Unquote(im.Path.Value)
 		switch p {
 		case "sync":
-			if want["sync"] {
+			if want["sync"] && want["syncb"] {
+				// both: cooperative primitives for Engine B + bubble-safe WaitGroup for Engine A
+				name := "sync"
+				if im.Name != nil {
+					name = im.Name.Name
+				}
+				syncName = name
+				im.Name = ast.NewIdent(name)
+				im.Path.Value = strconv.Quote("verif/shim/vsyncsb")
+				hits["sync"]++
+				hits["syncb"]++
+				changed = true
+			} else if want["sync"] {
 				name := "sync"
 				if im.Name != nil {
 					name = im.Name.Name
@@ -198,8 +223,39 @@ func rewriteFile(src, dst string, want map[string]bool, hits map[string]int) (bo
 			changed = true
 		}
 	}
+	needVbpf := false
+	if want["bpfmap"] {
+		arity := map[string]int{"Put": 2, "Lookup": 2, "Delete": 1}
+		ast.Inspect(f, func(n ast.Node) bool {
+			ce, ok := n.(*ast.CallExpr)
+			if !ok {
+				return true
+			}
+			se, ok := ce.Fun.(*ast.SelectorExpr)
+			if !ok {
+				return true
+			}
+			if _, isField := se.X.(*ast.SelectorExpr); !isField {
+				return true
+			}
+			if a, ok := arity[se.Sel.Name]; !ok || a != len(ce.Args) {
+				return true
+			}
+			ce.Args = append([]ast.Expr{se.X}, ce.Args...)
+			ce.Fun = &ast.SelectorExpr{X: ast.NewIdent("vbpf"), Sel: ast.NewIdent(se.Sel.Name)}
+			needVbpf = true
+			return true
+		})
+		if needVbpf {
+			hits["bpfmap"]++
+			changed = true
+		}
+	}
 	if !changed {
 		return false, nil
+	}
+	if needVbpf {
+		addImport(f, "vbpf", "verif/shim/vbpf")
 	}
 	if needVradius {
 		addImport(f, "vradius", "verif/shim/vradius")
